@@ -71,6 +71,24 @@ Theorem C19_reset :
 Proof. exact reset_restores. Qed.
 Print Assumptions C19_reset.
 
+(* Pinned variant: k never exceeds 64 (at k = 64 the threshold is 0, every coin fails, nothing is
+   inserted any more), so C19_real_coin_gap below covers every threshold the code can reach. *)
+Theorem C19_k_bound :
+  forall (T : Type) (eqb : T -> T -> bool), (forall x y, reflect (x = y) (eqb x y)) ->
+  forall (fuel : nat) (cap : Z) (ws : list Z) (ops : list (op T)) (s : st T) (ws' : list Z),
+    run T eqb true fuel cap (init T) ws ops = ROk s ws' -> (k s <= 64)%nat.
+Proof. exact k_bound. Qed.
+Print Assumptions C19_k_bound.
+
+(* The reference count of C19_exact / C19_unbiased is the usual one: on a stream of Adds it is the
+   length of the standard library's [nodup] of the stream. *)
+Theorem C19_distinct_is_nodup :
+  forall (T : Type) (eqb : T -> T -> bool), (forall x y, reflect (x = y) (eqb x y)) ->
+  forall (dec : forall x y : T, {x = y} + {x <> y}) (vs : list T),
+    distinct T eqb (adds T vs) = length (nodup dec vs).
+Proof. exact distinct_adds_nodup. Qed.
+Print Assumptions C19_distinct_is_nodup.
+
 (* Buffer bound, repaired variant (halving statement is a loop): Len < size after every run that
    completes (i.e. does not exhaust its fuel or its words). *)
 Theorem C19_len_loop :
